@@ -56,7 +56,10 @@ pub fn run_generic(ctx: &mut Ctx, id: &'static str, methods: &'static [SolveMeth
     ctx.run_cases(n, |ctx, idx, rng| {
         let size = *rng.pick(&[0usize, 1, 1, 2, 2]);
         let contention = idx % 4 == 3;
-        let (desc, tree) = if contention {
+        let (desc, tree) = if contention && rng.chance(0.15) {
+            let k = rng.range(6, 40);
+            (format!("shared_chance_fan(k={})", k), gen::shared_chance_fan(rng, k))
+        } else if contention {
             // contention workload: wide trees in which every move is hidden and chance infosets are
             // shared, so that one player infoset / one chance infoset lies below many frontier
             // nodes handed to different workers
